@@ -55,6 +55,18 @@ def generate(ctx):
         yield {"part": "zero_delay", "trainer": rng.choice(["DelayAdjustedSTDP", "DelayAdjustedKernelSTDP"]),
                "conn": rng.choice(["dense", "direct", "lateral", "conv"]), "dt": rng.choice([1.0, 0.5]), "B": rng.randint(1, 2),
                "T": rng.randint(6, 12), "signs": rng.randrange(4), "p": rng.choice([0.3, 0.6]), "seed": rng.randrange(1 << 30)}
+    # several cells in ONE trainer (own hyper-parameters each; sharing a neuron group, a connection, or living in two layers
+    # of which one stops training): every cell still follows its own documented rule
+    keys = ["lr_a", "lr_b", "tc_a", "tc_b", "tc_elig"]
+    for i in range(210 if th else 21):
+        base = {"lr_a": rng.choice([0.8, -0.8]), "lr_b": rng.choice([0.5, -0.5]), "tc_a": 7.0, "tc_b": 11.0, "tc_elig": 15.0}
+        other = dict(base)
+        for k in rng.sample(keys, rng.randint(1, 2)):
+            other[k] = {"lr_a": rng.choice([0.4, -0.8, 0.8]), "lr_b": rng.choice([0.25, 0.9, -0.5]), "tc_a": 9.0, "tc_b": 5.0, "tc_elig": 6.0}[k]
+        yield {"part": "multicell", "trainer": FAMILY[i % len(FAMILY)], "dt": rng.choice([1.0, 0.5]), "B": rng.randint(1, 2),
+               "T": rng.randint(6, 10), "hypers": [base, other], "topology": ["fan_in", "fan_out", "two_layers"][(i // len(FAMILY)) % 3],
+               "freeze_at": rng.choice([3, 5, 10 ** 9]), "reduction": "sum", "reward": rng.choice(["scalar+", "scalar-", "tensor"]),
+               "scale": rng.choice([1.0, 0.25, 2.0]), "p": rng.choice([0.4, 0.7]), "seed": rng.randrange(1 << 30)}
     for sg in range(4):
         for k in (0, 1, 2):
             yield {"part": "tie", "signs": sg, "k": k, "trainer": ["DelayAdjustedSTDP", "DelayAdjustedKernelSTDP", "KernelSTDP"][k % 3]}
@@ -97,6 +109,8 @@ def run_case(ctx, desc):
             return _cross(ctx, desc)
         if part == "zero_delay":
             return _zero(ctx, desc)
+        if part == "multicell":
+            return c08.run_multicell(ctx, desc, "C18")
         return _tie(ctx, desc)
     except (RuntimeError, ValueError, TypeError, AttributeError, IndexError, KeyError) as e:
         ctx.violation(ctx.exc_signature(e, f"{part}.{desc.get('trainer', '')}.{desc.get('conn', '')}"),
